@@ -52,7 +52,8 @@ PROPS = {
                         "titles are never blank after clean-up (GitLab forbids blank titles); only system notes the importer knows are generated"],
         "tests": [{"name": "TestC16Import", "quick": 6, "shards_quick": 4, "thorough": 40, "shards": 16, "timeout_quick": 900},
                   {"name": "TestC16SlowImport", "quick": None, "thorough": None},
-                  {"name": "TestC16ImportWhilePulling", "quick": 12, "thorough": 150, "shards": 2}],
+                  {"name": "TestC16ImportWhilePulling", "quick": 12, "thorough": 150, "shards": 2},
+                  {"name": "TestC16OlderImportData", "quick": 12, "thorough": 150, "shards": 2}],
     },
     "C18": {
         "level": "exploration",
